@@ -39,22 +39,70 @@ class StnHist(Engine):
     nruns = {"quick": 20000, "thorough": 3000000}
     budgets = {"quick": 30.0, "thorough": 540.0}
     rule = (
-        "script = 5-40 operations add(x, y, b) / insert_interval / copy_stn on up to 5 replicas over 2-5 events, bounds "
+        "script = 5-40 operations add(x, y, b) / insert_interval / copy_stn on up to 5 replicas over 2-5 events (profile cascade: a layered precedence network over 8-14 events inserted sink side first, then makespan upper bounds), bounds "
         "small integers or rationals with denominator <= 3 (epsilon 0), biased toward tightening an existing edge, closing a "
         "cycle of weight -1/0/+1, and operating on a copy right after copying. After EVERY operation, on EVERY replica: "
         "check_stn == reference consistency, and while consistent get_stn_model(e) == least non-negative solution for "
         "every event and every inserted constraint holds in the reported model; an inconsistent replica stays so. "
         "non-trivial = (>= 1 copy followed by insertions on both sides) AND (>= 1 replica became inconsistent OR >= 1 "
-        "subsumed insertion); distinct = digest of the (operation kind, outcome class) sequence"
+        "subsumed insertion), OR one insertion moved >= 5 events; distinct = digest of the (operation kind, outcome class) sequence"
     )
     real_components = ("DeltaSimpleTemporalNetwork (add, insert_interval, copy_stn, check_stn, get_stn_model)",)
     stub_components = ()
     assumptions = ("epsilon = 0; bounds are exact rationals",)
 
     def profiles(self, tier):
-        return ["mixed", "cycles", "copies"]
+        return ["mixed", "cycles", "copies", "cascade"]
+
+    def generate_cascade(self, seed):
+        """Layered precedence network over 8-14 events inserted sink side first, so that each insertion near the
+        sources shifts a large part of the network and the propagation queue holds the same event several times
+        (the same successor is improved first over a short path, then over a longer one)."""
+        r = stream(seed, "cascade")
+        nev = r.randint(8, 14)
+        events = [f"e{i}" for i in range(nev)]
+        p = r.choice([0.35, 0.5, 0.7, 0.9])
+        edges = []
+        if r.random() < 0.5:
+            for i in range(nev):
+                for j in range(i + 1, nev):
+                    if r.random() < p or j == i + 1:
+                        edges.append((i, j, -r.randint(1, 30)))
+            # sources last; within one source the order of successors is free
+            r.shuffle(edges)
+            edges.sort(key=lambda e: -e[0])
+        else:
+            # fan: e0 -> e1 (hub) -> every other event, cross edges among the successors inserted first in any
+            # order, the hub's edges next in any order, the edge that shifts the hub last
+            wh, wc = r.choice([(3, 30), (30, 30), (3, 3)])
+            for i in range(2, nev):
+                for j in range(i + 1, nev):
+                    if r.random() < p:
+                        edges.append((i, j, -r.randint(1, wc)))
+            r.shuffle(edges)
+            hub = [(1, j, -r.randint(1, wh)) for j in range(2, nev)]
+            r.shuffle(hub)
+            edges += hub + [(0, 1, -r.randint(1, 100))]
+        if r.random() < 0.3:
+            k = r.randrange(len(edges))
+            edges.insert(r.randrange(len(edges)), edges.pop(k))
+        ops = []
+        nets = ["N0"]
+        for (i, j, w) in edges:
+            if r.random() < 0.04 and len(nets) < 3:
+                ops.append({"op": "copy", "of": nets[-1], "id": f"N{len(nets)}"})
+                nets.append(f"N{len(nets)}")
+            ops.append({"op": "add", "n": r.choice(nets[-2:]), "x": events[i], "y": events[j], "b": w})
+        # back edges: upper bounds on the makespan, some of them impossible
+        for _ in range(r.randint(1, 4)):
+            i, j = sorted(r.sample(range(nev), 2))
+            ops.append({"op": "add", "n": r.choice(nets), "x": events[j], "y": events[i],
+                        "b": r.randint(5, 30 * (j - i))})
+        return {"engine": self.name, "events": events, "ops": ops}
 
     def generate(self, seed, profile, tier):
+        if profile == "cascade":
+            return self.generate_cascade(seed)
         r = stream(seed, "ops")
         nev = r.randint(2, 5)
         events = [f"e{i}" for i in range(nev)]
@@ -124,7 +172,7 @@ class StnHist(Engine):
         dead = {"N0": False}     # has been inconsistent
         copied = {}              # net -> set of nets it was copied to/from, with later adds
         touched_after_copy = set()
-        subsumed = became_inconsistent = False
+        subsumed = became_inconsistent = cascade = False
         pairs = []
         def call(what, fn, *a, **kw):
             try:
@@ -160,7 +208,12 @@ class StnHist(Engine):
                         ctx.probe("subsumed-insertion")
                     cons[n].append((op["x"], op["y"], b))
                     seen[n].update((op["x"], op["y"]))
+                before = dict(real[n].distances)
                 call(f"op {i}: add({op['x']}, {op['y']}, {b}) on {n}", real[n].add, op["x"], op["y"], b)
+                moved = sum(1 for e_, v_ in real[n].distances.items() if before.get(e_, 0) != v_)
+                if moved >= 5:
+                    cascade = True
+                    ctx.probe("insertion-moved>=5-events")
                 touched_after_copy.add(n)
                 ctx.ev(i, "add", n, op["x"], op["y"], b, real[n].check_stn())
                 ctx.outcome("add", str(real[n].check_stn()))
@@ -223,4 +276,4 @@ class StnHist(Engine):
                               cls="violated-constraint")
             ctx.states.add(digest(sorted((n, sorted(map(str, c))) for n, c in cons.items())))
         both = any(a in touched_after_copy and b in touched_after_copy for a, b in pairs)
-        return both and (became_inconsistent or subsumed)
+        return (both and (became_inconsistent or subsumed)) or cascade
